@@ -646,10 +646,15 @@ func init() {
 	})
 	ext("runtime.nanotime", externals["time.runtimeNano"])
 	ext("time.Sleep", func(fr *frame, a []value) value {
-		// virtual time never advances on its own: a sleeping background thread sleeps forever
+		// virtual time advances only through vAdvance: a sleeping background thread resumes after
+		// the next advance (see runSleepers)
 		if fr.i.sched.cur != nil && fr.i.sched.cur.id != 0 {
-			fr.i.sched.cur.daemon = true
-			fr.i.blockUntil(func() bool { return false }, "time.Sleep")
+			i := fr.i
+			i.sched.cur.daemon = true
+			epoch := i.ps.clockEpoch
+			i.sched.cur.sleeping = true
+			i.blockUntil(func() bool { return i.ps.clockEpoch != epoch }, "time.Sleep")
+			i.sched.cur.sleeping = false
 			return nil
 		}
 		fr.i.yield("Sleep")
